@@ -23,6 +23,7 @@ RULE = (
     ' Also: producer stalls, late-check and slow-isset profiles, small (pipe-sized) inputs for the multi-image shutdown window, stateme'
     'nt-boundary delays, a worker SIGKILLed on an item, and os.fork refused for the first or second worker (the stage must report it or'
     ' still do everything).'
+    ' Round 8: pyramid objects counted / visited at another depth before their depth attribute is set.'
 )
 ASSUMPTIONS = [
     "event-log file order respects happens-before",
